@@ -52,7 +52,7 @@ type flagSrc struct {
 	Members []member `json:"members,omitempty"`
 	base    value    // Default as generated (members without a default of their own use it)
 	baseSet bool
-	anySet  []value  // several members set to DIFFERENT values: the code picks one of them through a set (any is accepted)
+	anySet  []value // several members set to DIFFERENT values: the code picks one of them through a set (any is accepted)
 }
 
 // effective derives Default / Set of a binding from its members (also on replay)
@@ -573,7 +573,7 @@ type expectation struct {
 	lax   *value // alternative acceptable value (default of an unset bound flag filling an empty value)
 	bad   bool
 	any   []value // members of one flag set were set to different values: any of them is acceptable
-	shado bool // an environment variable of another FIELD is also the name viper derives for an enclosing structure
+	shado bool    // an environment variable of another FIELD is also the name viper derives for an enclosing structure
 }
 
 func expectLeaf(ty string, ls leafSrc) expectation {
